@@ -166,3 +166,4 @@ Print Assumptions C17_destructure_rejects_reference.
 Print Assumptions C17_destructure_rejects_drop.
 Print Assumptions C17_destructure_rejects_field_mismatch.
 Print Assumptions C17_empty_pattern_unguarded.
+Print Assumptions C17_dsl_example.
